@@ -127,7 +127,8 @@ func vdExpectedDefaults(p *reg.Pkg, root ygot.ValidatedGoStruct, st reflect.Type
 		ft := sf.Type
 		switch {
 		case ce.IsLeaf():
-			if len(ce.Default) != 1 {
+			dflt := leafDefaults(ce)
+			if len(dflt) != 1 {
 				continue
 			}
 			set := false
@@ -137,7 +138,7 @@ func vdExpectedDefaults(p *reg.Pkg, root ygot.ValidatedGoStruct, st reflect.Type
 			if set {
 				continue
 			}
-			if term, ok := vdDefaultTerm(p, root, ce, ce.Type, ce.Default[0]); ok {
+			if term, ok := vdDefaultTerm(p, root, ce, ce.Type, dflt[0]); ok {
 				out[path] = "(TLeaf " + term + ")"
 			}
 		case ce.IsList():
